@@ -161,9 +161,14 @@ def make_element(d):
     if k == 'open':       return elm.open_circuit(name)
     raise ValueError(k)
 
+def fresh(s: str) -> str:
+    """a new, non-interned string object equal to s (labels read from files or built at run time
+    are never the same object as a literal, so identity comparisons in the code must not matter)"""
+    return ''.join(list(s)) if len(s) > 1 else s
+
 def to_impl(desc):
     from CircuitCalculator.Network.network import Network, Branch
-    return Network([Branch(d['n1'], d['n2'], make_element(d)) for d in desc['branches']], desc['zero'])
+    return Network([Branch(fresh(d['n1']), fresh(d['n2']), make_element(d)) for d in desc['branches']], fresh(desc['zero']))
 
 def elem_json(e):
     cls = type(e).__name__
